@@ -2693,6 +2693,7 @@ SOURCES = [
       ("pre_encoded_url", "(url_str : str) : result gen_url", "Err OtherError", "proc"),
       ("build_pre_encoded_url", "(scheme authority : str) (user password : option str) (host : str) (port : option N) (path query_string fragment : str) : result gen_url", "Err OtherError", "proc"),
       ("from_parts_uncached", "(scheme netloc path query fragment : str) : result gen_url", "Err OtherError", "proc"),
+      ("URL.build", "(a : build_args) : result gen_url", "Err OtherError", "build"),
       ("URL.__str__", "(self : url) : result str", "Err OtherError", "meth", "rstr"),
       ("URL.__eq__", "(self other : url) : bool", "false", "meth", "bool"),
       ("URL._cmp_val", "(self : url) : list str", "[]", "meth", "strs"),
